@@ -268,6 +268,7 @@ pub fn run_c05(rep: &mut Report) {
     }
 
     clean_run_then_fault(rep, "C05", frame_expect);
+    copies_then_every_frame(rep, "C05", frame_expect);
 
     // ---- add_word takes &self and the type is Sync: one decoder shared by reference between threads must judge every word by
     //      the rule, whatever the other threads are feeding it at the same time
@@ -647,6 +648,51 @@ fn run_2_32_bits() -> (u64, Option<(String, String)>) {
     (total_frames * 11, v)
 }
 
+/// N copies of one frame (an idle line of all ones, a stuck-low line, a key held), then EVERY frame: the follower must be
+/// judged on its own 11 bits.  (C05: by the frame rule; C06: by whole-word decoding of the same bits.)
+fn copies_then_every_frame(rep: &mut Report, prop: &str, oracle: fn(u16) -> Result<u8, Error>) {
+    let firsts: [u16; 5] = [0x7FF, 0x000, encode_frame(0x1C), encode_frame(0x1C) ^ 0x200, 0x3FF];
+    let mut judged = 0u64;
+    for x in firsts {
+        for copies in [3usize, 4, 5, 6, 8, 16, 40] {
+            let r = guarded(|| {
+                let mut bad: Option<(u16, usize, String, String)> = None;
+                for y in 0..2048u16 {
+                    let mut d = crate::scan::fresh_ps2();
+                    for _ in 0..copies {
+                        for i in 0..11 {
+                            let _ = d.add_bit((x >> i) & 1 == 1);
+                        }
+                    }
+                    // the follower, then a valid frame behind it (alignment)
+                    for (w, _) in [(y, 0), (encode_frame(0xF0), 1)] {
+                        for i in 0..11 {
+                            let got = d.add_bit((w >> i) & 1 == 1);
+                            let want: BitRes = if i < 10 { Ok(None) } else { oracle(w).map(Some) };
+                            if got != want && bad.is_none() {
+                                bad = Some((y, i, bitres_str(&want), bitres_str(&got)));
+                            }
+                        }
+                    }
+                }
+                bad
+            });
+            judged += 2048 * 2;
+            match r {
+                Ok(None) => {}
+                Ok(Some((y, i, want, got))) => rep.violate(
+                    format!("{}|add_bit|prev={}-copies-of-a-{}-frame|class={}|bit#{}|want={}|got={}", prop, copies, frame_class(x), frame_class(y), i + 1, want, got),
+                    format!("after {} copies of frame {} ({}) the frame {} ({}) or the valid frame behind it: bit {} returned {}; expected {}", copies, word_bits(x), frame_class(x), word_bits(y), frame_class(y), i + 1, got, want),
+                    J::obj().with("kind", J::s("copies-then-frame")).with("first", J::u(x as u64)).with("copies", J::u(copies as u64)).with("follower", J::u(y as u64)),
+                ),
+                Err(p) => rep.violate(format!("{}|add_bit|prev={}-copies|panic|{}", prop, copies, panic_sig(&p)), format!("panicked after {} copies of frame {}: {}", copies, word_bits(x), p), J::Null),
+            }
+        }
+    }
+    rep.evaluations += judged;
+    rep.count("frames_judged_after_copies_of_one_frame", judged);
+}
+
 /// A line that has been clean for a long time, then one bad frame, then every class of frame (C05: judged by the frame
 /// rule; C06: by the crate's own whole-word decoding of the same 11 bits).
 fn clean_run_then_fault(rep: &mut Report, prop: &str, oracle: fn(u16) -> Result<u8, Error>) {
@@ -769,6 +815,7 @@ fn frame_static_counter_wraps(rep: &mut Report, prop: &str, serial: bool) {
 pub fn run_c06(rep: &mut Report) {
     frame_static_counter_wraps(rep, "C06", true);
     clean_run_then_fault(rep, "C06", whole_word);
+    copies_then_every_frame(rep, "C06", whole_word);
     let long_run = std::thread::spawn(run_2_32_bits);
     let fresh_dbg = format!("{:?}", crate::scan::fresh_ps2());
     let mut out = Out::default();
